@@ -1720,7 +1720,7 @@ var (
 	c14tFamTx      = &c14tFam{"tx", true, func() interface{} { return new(types.Transaction) }, c14tIdent}
 	c14tFamLog     = &c14tFam{"changelog", true, func() interface{} { return new(types.ChangeLog) }, c14tIdent}
 	c14tFamLogs    = &c14tFam{"changelogs", true, func() interface{} { return new(types.ChangeLogSlice) }, c14tIdent}
-	c14tFamAccount = &c14tFam{"accountdata", false, func() interface{} { return new(types.AccountData) }, c14tCanonAccount}
+	c14tFamAccount = &c14tFam{"accountdata", false, func() interface{} { return new(types.AccountData) }, c14tIdent}
 	c14tFamDeputy  = &c14tFam{"deputynode", true, func() interface{} { return new(types.DeputyNode) }, c14tIdent}
 	c14tFamDeputys = &c14tFam{"deputynodes", true, func() interface{} { return new(types.DeputyNodes) }, c14tIdent}
 	c14tFamEvent   = &c14tFam{"event", true, func() interface{} { return new(types.Event) }, c14tIdent}
@@ -2125,8 +2125,14 @@ func (t *c14tState) caseAccountData() {
 	e1, _, _ := c14tEnc(a)
 	e2, _, _ := c14tEnc(a)
 	e3, _, _ := c14tEnc(a)
+	for k := 0; k < 6 && bytes.Equal(e1, e2) && bytes.Equal(e1, e3); k++ {
+		e2, _, _ = c14tEnc(a)
+		e3, _, _ = c14tEnc(a)
+	}
 	if !bytes.Equal(e1, e2) || !bytes.Equal(e1, e3) {
-		c.Count("info:accountdata-encode-nondeterministic")
+		// the encoding is persisted (store/chain_database.go): equal accounts must have equal bytes.
+		// Repaired in /repo by "fix: AccountData.EncodeRLP writes NewestRecords in log type order" (07cd1f5).
+		t.fail("c14/accountdata-encode-nondeterministic", fmt.Sprintf("two encodings of the same AccountData (%d version records) differ: %s vs %s", len(a.NewestRecords), c14tHex(e1), c14tHex(e2)), desc())
 	}
 	enc, _, _ := t.roundTrip(c14tFamAccount, "", a, desc)
 	if a.Balance == nil {
@@ -2135,7 +2141,7 @@ func (t *c14tState) caseAccountData() {
 		}
 	}
 	if enc != nil {
-		t.mutations(c14tFamAccount, c14tCanonAccount(enc))
+		t.mutations(c14tFamAccount, enc)
 	}
 }
 
@@ -2287,8 +2293,9 @@ func (t *c14tState) caseNetMsg() {
 	case pan != "":
 		t.fail("c14/"+f.name+"-decode-panic", "p2p.Msg.Decode with trailing bytes: "+pan, c14tHex(msg2.Content))
 	case err == nil:
-		c.Count("info:msg-decode-trailing-accepted")
-		t.witness("msg-decode-trailing-accepted", m.name+" "+c14tHex(msg2.Content))
+		// no trailing bytes: the network path must be as strict as rlp.DecodeBytes.
+		// Repaired in /repo by "fix: Msg.Decode rejects bytes after the decoded value" (52634ec).
+		t.fail("c14/msg-decode-trailing-accepted", "p2p.Msg.Decode accepts bytes after the value: "+m.name, c14tHex(msg2.Content))
 	default:
 		c.Count("info:msg-decode-trailing-rejected")
 	}
@@ -2617,6 +2624,7 @@ func (t *c14tState) checkMut(f *c14tFam, class string, b []byte) {
 	}
 	if err != nil {
 		c.Count("typed:" + f.name + ":mut:" + class + ":reject")
+		c14TypedOp(c, f.name, b, false, nil, false)
 		return
 	}
 	c.Count("typed:" + f.name + ":mut:" + class + ":accept")
@@ -2633,6 +2641,7 @@ func (t *c14tState) checkMut(f *c14tFam, class string, b []byte) {
 		}
 	}
 	re, eerr, epan := c14tEnc(v)
+	c14TypedOp(c, f.name, b, true, re, eerr == nil && epan == "")
 	if eerr == nil && epan == "" && bytes.Equal(f.canon(re), f.canon(b)) {
 		return
 	}
@@ -2670,6 +2679,7 @@ func (t *c14tState) mutations(f *c14tFam, base []byte) {
 	if len(base) > 3000 {
 		k = 3
 	}
+	t.checkMut(f, "identity", base) // the unmutated encoding: must be accepted and reproduce itself
 	for i := 0; i < k; i++ {
 		class, b := t.mutate(f, base)
 		t.checkMut(f, class, b)
